@@ -434,7 +434,7 @@ func evalC09(cs *c09Case) (vs []*Violation) {
 	gc := gapClass(cs)
 	add := func(rule, class, detail string) {
 		c := mkCase("C09", site, nil, buf, nil)
-		c.Extra = map[string]any{"case": cs}
+		c.Extra = map[string]any{"case": *cs} // a copy: callers re-use their case variables
 		vs = append(vs, &Violation{Property: "C09", Site: site, Rule: rule, Class: class, Detail: detail, Case: c})
 	}
 	defer recoverTo3(add)
